@@ -16,6 +16,8 @@ def check(ctx, replay=None):
         dict(scope="long1", mc=["ValidOK"] if th else None, mc_maxskips=[255], kw=dict(W=8, X32Bit=512, NSys=300), stride=1 if th else 2, concs=2, expand=1),
         dict(scope="long2", mc=["ValidOK"] if th else None, mc_maxskips=[255], kw=dict(W=8, X32Bit=512, NSys=300), stride=1 if th else 3, concs=2, expand=1),
         dict(scope="longconds", mc=["ValidOK"], mc_maxskips=[255], kw=dict(W=8, X32Bit=512, NSys=300), stride=1 if th else 2, concs=2, expand=1),
+        # one list of 129..300 conditions (600..1700 instructions: second- and third-level bridges on its no-match label); generated, the model does not compile it
+        dict(scope="hugelist", mc=None, with_model=False, kw=dict(W=11, X32Bit=4096, NSys=300), stride=1 if th else 2, concs=2, expand=1),
     ]
     polfam.run_family(ctx, plan, mine={"invalid"}, decision_owner=None)
     ctx.cov["rule"] = ("every accepted policy of the scopes (incl. groups without names in every position and conditional-only groups): raw encoding, "
